@@ -119,3 +119,30 @@ typedef struct { BodyMode mode; uint64_t contentLength; } Framing;      /* struc
   __CPROVER_loop_invariant(HM_LOOP_CONTENT((pos == hs.n) | LINESTART(hs, pos))) \
   PHB_INV_OBS PHB_INV_CL \
   __CPROVER_decreases(hs.n - pos))
+
+
+/* ================= frameResponse ================= */
+/* HttpClient::advanceChunked: the contract PROVED in unit http_chunked_client (proof safety_mem/safety_arith: A1, A3 range part, A5), used by replacement.
+ * Its call-site precondition there ("st.pos <= buf.size()", trusted in that unit) is a requires clause here, i.e. it is CHECKED at this call site. */
+FrameStatus advanceChunked(fr_str buf, size_t effectiveCap, ChunkState *st)
+  __CPROVER_requires(IORA_TRUE && st->pos <= buf.n)
+  __CPROVER_assigns(st->pos, st->decoded, st->messageEnd)
+  __CPROVER_ensures(__CPROVER_old(st->pos) <= st->pos && st->pos <= buf.n)
+  __CPROVER_ensures(__CPROVER_return_value == FrameStatus_NeedMore || __CPROVER_return_value == FrameStatus_Complete || __CPROVER_return_value == FrameStatus_Malformed)
+  __CPROVER_ensures(__CPROVER_return_value == FrameStatus_Complete ==> (st->messageEnd <= buf.n && st->messageEnd >= 5 && st->messageEnd - 5 >= st->pos))
+  __CPROVER_ensures(__CPROVER_return_value != FrameStatus_Complete ==> st->messageEnd == __CPROVER_old(st->messageEnd));
+
+/* The header-terminator scan state (RFC 9112 2.2; segmentation independence): while the header block is incomplete, headerScanPos refers to the
+ * CURRENT buffer - it leaves at least 3 bytes to re-scan (a CRLF CRLF straddling the next append is still found) and NO header terminator starts
+ * below it (arbitrary index GQ): a search resumed there finds the same first CRLF CRLF as a search from 0. */
+#define FR_SCAN_RANGE(d_, h_) (((h_) == 0) | (((h_) <= (d_).n) && ((d_).n - (h_) >= 3)))
+#define FR_SCAN_NONE_BELOW(d_, h_) (!((GQ < (h_)) && (GQ <= (d_).n) && ((d_).n - GQ >= 4)) || !FR_CRLF2_AT(d_, GQ))
+/* loop 1: iterates only by discarding an interim 1xx response; variant: the buffer shrinks by at least 4 bytes each time */
+#define IORA_LOOP_frameResponse_1 IORA_LC( \
+  __CPROVER_assigns(data->off, data->n, *headersDone, *headerScanPos, *bodyStart, *resp, *framing, *chunkState, *forceEvict, iora_exc, FR) \
+  __CPROVER_loop_invariant(iora_exc == EXC_NONE && data->n <= __CPROVER_loop_entry(data->n) && data->off <= FR_MAXLEN && data->off + data->n == __CPROVER_loop_entry(data->off) + __CPROVER_loop_entry(data->n)) \
+  __CPROVER_loop_invariant(*headersDone == __CPROVER_loop_entry(*headersDone) && (*forceEvict != 0) == (__CPROVER_loop_entry(*forceEvict) != 0)) \
+  __CPROVER_loop_invariant(*headersDone ==> (*bodyStart == __CPROVER_loop_entry(*bodyStart) && framing->mode == __CPROVER_loop_entry(framing->mode) && framing->contentLength == __CPROVER_loop_entry(framing->contentLength) && chunkState->pos == __CPROVER_loop_entry(chunkState->pos) && data->n == __CPROVER_loop_entry(data->n))) \
+  __CPROVER_loop_invariant(!*headersDone ==> FR_SCAN_RANGE(*data, *headerScanPos)) \
+  __CPROVER_loop_invariant(HM_CONTENT(!*headersDone ==> FR_SCAN_NONE_BELOW(*data, *headerScanPos))) \
+  __CPROVER_decreases(data->n))
